@@ -4,7 +4,8 @@
 (* The harness kills the real flow at every executed line; the file states *)
 (* observed at successive kill points form the sequence of file states     *)
 (* along the real execution (consecutive duplicates removed).  A trace is  *)
-(*   [tid, runs: <<[flow, obs: <<file state, ...>>, killed]>>]             *)
+(*   [tid, start, runs: <<[flow, obs: <<file state, ...>>, killed]>>]      *)
+(* (start = kind of the initial state, see Backup!InitOf)                  *)
 (* where all runs but the last are complete prefixes (killed in their last *)
 (* observed state, or ended by a clean close).  TLC searches for model     *)
 (* behaviours whose observable file states follow the recorded sequence    *)
@@ -24,20 +25,21 @@ T_FlowDef == TraceFile.flowdef
 T_MaxRuns == 99
 
 VARIABLES s, pc, todo, runs, nw, fresh, tid, ri, oi
-B == INSTANCE Backup WITH Dev <- T_Dev, MaxRuns <- T_MaxRuns, FlowDef <- T_FlowDef
+T_Starts == {"base", "basedel", "zero", "absent"}
+B == INSTANCE Backup WITH Dev <- T_Dev, MaxRuns <- T_MaxRuns, FlowDef <- T_FlowDef, Starts <- T_Starts
 
 tvars == <<s, pc, todo, runs, nw, fresh, tid, ri, oi>>
 
 Run == Traces[tid].runs[ri]
 NRuns == Len(Traces[tid].runs)
 
-FileEq(o, f) == o.st = f.st /\ SeqToSet(o.c) = f.c
+FileEq(o, f) == o.st = f.st /\ SeqToSet(o.c) = f.c /\ o.m = f.m
 ObsEq(o, t) ==
   LET m == B!Obs(t) IN
   /\ FileEq(o.main, m.main) /\ o.wal = m.wal /\ SeqToSet(o.vis) = m.vis
-  /\ FileEq(o.bak, m.bak) /\ FileEq(o.tmp, m.tmp) /\ o.shm = m.shm
+  /\ FileEq(o.bak, m.bak) /\ FileEq(o.tmp, m.tmp) /\ o.shm = m.shm /\ o.jrn = m.jrn
 
-TInit == /\ B!Init /\ tid \in 1..Len(Traces) /\ ri = 1 /\ oi = 1
+TInit == /\ tid \in 1..Len(Traces) /\ B!InitWith(Traces[tid].start) /\ ri = 1 /\ oi = 1
 
 \* after a model step the observable state is still the current one or the next recorded one
 Advance ==
@@ -49,8 +51,8 @@ TStart == /\ ri <= NRuns /\ pc = "idle" /\ ObsEq(Run.obs[1], s)
 
 TStep == /\ ri <= NRuns /\ pc # "idle"
          /\ (B!O1 \/ B!Ow \/ B!Os \/ B!O2 \/ B!O3 \/ B!O4 \/ B!O5 \/ B!O6
-             \/ B!CallBackup \/ B!CallWrite \/ B!CallClose
-             \/ B!B1 \/ B!B2 \/ B!Bt \/ B!B3 \/ B!B4 \/ B!B5 \/ B!B6 \/ B!W1 \/ B!W2 \/ B!C1)
+             \/ B!CallBackup \/ B!CallWrite \/ B!CallBigWrite \/ B!CallClose
+             \/ B!B1 \/ B!B2 \/ B!Bt \/ B!B3 \/ B!B4 \/ B!B5 \/ B!B6 \/ B!W1 \/ B!W2 \/ B!V1 \/ B!V2 \/ B!C1)
          /\ Advance /\ UNCHANGED <<tid, ri>>
 
 \* clean end of the process (close_db_conn returned; a kill after that changes nothing)
